@@ -220,4 +220,19 @@ def getArgsSelTC (c : Content) (rows : List (Rat × List (Name × Rat))) (f : Ar
     let raw ← readoutPass c f (dropData (omKeys c.data) env)
     names.mapM fun k => do pure (k, ← raw.get k)
 
+/-! ### the fluxes are read from the dict `_get_args` RETURNED (data sets popped)
+
+`rhsFromArgs`, `getFluxes`, `getArgs`, `getStoich` above read flux values from the environment before the
+pop; Python reads `dependent[flux]` / `args.loc[flux names]` after it.  The two agree unless a stoichiometry
+KEY of a surrogate is not bound in the popped dict (it is a data-set name, or no output at all) — then every
+entry point that looks the fluxes up raises `KeyError(flux)`.  `guardFlux` adds exactly that: the answer is
+kept iff `get_fluxes` (= `getArgsSel … fluxFlags`, which selects from the popped dict) answers, else its error. -/
+def guardFlux {α} (c : Content) (vars : Option (List (Name × Rat))) (t : Rat) (r : Except Err α) :
+    Except Err α :=
+  -- the flux lookup comes right after `_create_cache` / `_get_args` (whose errors `getArgsSel` shares) and
+  -- before anything else the entry point does (computed coefficients, row selection)
+  match getArgsSel c vars t fluxFlags with
+  | .error e => .error e
+  | .ok _ => r
+
 end Mxl
